@@ -67,6 +67,25 @@ func (e *Engine) contractFrame(ct *spec.FuncContract, sig *types.Signature, fn *
 			}
 			ms.all = true
 		case "un":
+			if m.Tok == "*" && m.Args[0].Op == "un" && m.Args[0].Tok == "&" && m.Args[0].Args[0].Op == "id" && fn != nil {
+				// *&v : the cell of a captured variable
+				done := false
+				for _, fv := range fn.FreeVars {
+					if fv.Name() == m.Args[0].Args[0].Tok {
+						if p, ok := unalias(fv.Type()).Underlying().(*types.Pointer); ok {
+							if isAggregate(p.Elem()) {
+								ms.add(modKey{kind: "O", t: p.Elem()})
+							} else {
+								ms.add(modKey{kind: "C", t: p.Elem()})
+							}
+							done = true
+						}
+					}
+				}
+				if done {
+					continue
+				}
+			}
 			if m.Tok == "*" && m.Args[0].Op == "id" {
 				if t := typeOf(m.Args[0].Tok); t != nil {
 					if p, ok := unalias(t).Underlying().(*types.Pointer); ok {
@@ -83,6 +102,23 @@ func (e *Engine) contractFrame(ct *spec.FuncContract, sig *types.Signature, fn *
 		case "call":
 			if m.Args[0].Op == "id" && m.Args[0].Tok == "held" {
 				continue // lock state is tracked separately
+			}
+			if m.Args[0].Op == "id" && m.Args[0].Tok == "fields" {
+				var pkg *types.Package
+				if fn != nil && fn.Pkg != nil {
+					pkg = fn.Pkg.Pkg
+				} else if fn != nil && fn.Parent() != nil && fn.Parent().Pkg != nil {
+					pkg = fn.Parent().Pkg.Pkg
+				}
+				if p := e.ContractPkg[ct]; p != nil {
+					pkg = p
+				}
+				if keys, err := e.fieldsKeys(pkg, m.Args[1:]); err == nil {
+					for _, k := range keys {
+						ms.add(k)
+					}
+					continue
+				}
 			}
 			ms.all = true
 		default:
